@@ -165,6 +165,11 @@ func (g *c07Gen) doc() J {
 		"plain":  J{"type": "object", "additionalProperties": J{"type": "string", "nullable": true}},
 		"labels": J{"type": "object", "additionalProperties": J{"type": "string", "enum": []interface{}{"a", "b"}, "nullable": true}},
 		"nested": J{"type": "object", "additionalProperties": J{"type": "object", "nullable": true, "properties": J{"x": J{"type": "string"}}, "additionalProperties": J{"type": "integer"}}}}}
+	// arrays whose items are inline objects with additional members (typed and untyped), as a member and as a component
+	schemas["FixE"] = J{"type": "object", "properties": J{
+		"entries": J{"type": "array", "items": J{"type": "object", "properties": J{"sku": J{"type": "string"}}, "additionalProperties": J{"type": "integer"}}},
+		"loose":   J{"type": "array", "items": J{"type": "object", "properties": J{"sku": J{"type": "string"}}, "additionalProperties": true}}}}
+	schemas["FixF"] = J{"type": "array", "items": J{"type": "object", "properties": J{"sku": J{"type": "string"}}, "additionalProperties": J{"type": "integer"}}}
 	// a union that has members of its own and additional ones: the 64-bit member must not pass through a float on its way
 	schemas["FixD"] = J{"type": "object", "required": []interface{}{"id"}, "additionalProperties": true,
 		"properties": J{"id": J{"type": "integer", "format": "int64"}, "title": J{"type": "string"}},
